@@ -92,3 +92,136 @@ Example c08_remove_legacy_refuted :
   let ix := remove_id_legacy 2 1 (fst (remove_id 2 1 (set_many 2 1 (empty_index 2 1) [e1; e2]) 77)) 2 in
   contents ix = [e1] /\ top_hash ix <> top_hash (fresh 2 1 (contents ix)).
 Proof. split; [vm_compute; reflexivity|intro Hc; vm_compute in Hc; discriminate Hc]. Qed.
+
+(* ================================================================================================
+   One layer up: commonspace/headsync/diffmanager.go over the head storage entries
+   (Model/HeadIndex.v, Proofs/HeadIndex*.v).
+   A space is started on a head storage [s0] (one entry per id), then lives through ANY sequence of
+     EvUpd u        headStorage.UpdateEntry with resulting entry u, delivered to DiffManager.UpdateHeads
+     EvDs id        the deletion state records id
+     EvRestart sil  process restart (entries [sil] written during start-up, deletion state rebuilt, fresh ldiff,
+                    DiffManager.FillDiff)
+   [hist_ok] is the EXACT condition on the entry history (decidable, does not mention the index or the digests):
+     an update that UpdateHeads turns into Set is one that FillDiff includes ("d" key absent, not a skipped root);
+     an update that UpdateHeads ignores (id known to the deletion state, or heads = [id]) does not change what
+     FillDiff makes of that id.
+   [hist_wf] is the readable sufficient form (W1..W4 in Model/HeadIndex.v):
+     W1 the "d" key is never written with status 0;   W2 ids known to the deletion state keep their mark;
+     W3 the entry's id occurs among its heads only alone;
+     W4 an entry with heads = [id] that is written while a DiffManager observes is derived or has a CommonSnapshot
+        and the id contributed nothing before, or it leaves FillDiff's view of the id unchanged.
+     (The only entry the repository writes with heads = [id], not derived, WITHOUT CommonSnapshot is the ACL's,
+      written by spacestorage.Create before any DiffManager exists.)
+   [H] = xxhash64 of ids, [HD] = HashId(concat heads): arbitrary functions.
+   ================================================================================================ *)
+From AnySync Require Import Model.HeadIndex Proofs.HeadIndexBase Proofs.HeadIndexMain.
+
+(* at EVERY point k of the history: the live index is the index FillDiff would build now from the head storage,
+   their Hash() are equal, and the StateStorage hash written by the live side equals both; the live index is a
+   history of ldiff operations in the sense of c08_canonical *)
+Theorem c08_dm_live_equals_restart : forall H HD df th s0 evs,
+  (forall id, H id <= U64MAX) -> 2 <= df -> df <= U64MAX ->
+  uniq_store s0 -> hist_ok (istart s0) evs = true ->
+  forall k,
+    let w := wrun H HD df th (wstart H HD df th s0) (firstn k evs) in
+    w_ix w = fill_index H HD df th (w_store w)
+    /\ top_hash (w_ix w) = top_hash (fill_index H HD df th (w_store w))
+    /\ w_hash w = top_hash (fill_index H HD df th (w_store w))
+    /\ w_ix w = run_ops df th (w_ops w)
+    /\ w_store w = i_store (irun (istart s0) (firstn k evs)).
+Proof. exact (fun H HD df th s0 evs H64 Hdf Hdf64 => live_equals_restart H HD H64 df th Hdf Hdf64 s0 evs). Qed.
+Print Assumptions c08_dm_live_equals_restart.
+
+(* same ids (AllIds) and same answer to every range query *)
+Theorem c08_dm_ranges : forall H HD df th s0 evs,
+  (forall id, H id <= U64MAX) -> 2 <= df -> df <= U64MAX ->
+  uniq_store s0 -> hist_ok (istart s0) evs = true ->
+  let w := wrun H HD df th (wstart H HD df th s0) evs in
+  map eid (contents (w_ix w)) = map eid (contents (fill_index H HD df th (w_store w)))
+  /\ forall from to we, get_range (w_ix w) from to we = get_range (fill_index H HD df th (w_store w)) from to we.
+Proof. exact (fun H HD df th s0 evs H64 Hdf Hdf64 => live_equals_restart_ranges H HD H64 df th Hdf Hdf64 s0 evs). Qed.
+Print Assumptions c08_dm_ranges.
+
+(* the readable condition is sufficient *)
+Theorem c08_dm_wf_sufficient : forall evs i, hist_wf i evs = true -> hist_ok i evs = true.
+Proof. exact hist_wf_ok. Qed.
+Print Assumptions c08_dm_wf_sufficient.
+
+(* the model meets the executable specification used by the correspondence check *)
+Theorem c08_dm_meets_spec : forall H HD df th (tok : digest -> N) s0 evs,
+  (forall id, H id <= U64MAX) -> 2 <= df -> df <= U64MAX ->
+  uniq_store s0 -> hist_ok (istart s0) evs = true ->
+  forall k,
+    let w := wrun H HD df th (wstart H HD df th s0) (firstn k evs) in
+    spec_C08_restart (tok (top_hash (w_ix w))) (tok (top_hash (fill_index H HD df th (w_store w)))) (tok (w_hash w))
+                     (map eid (contents (w_ix w))) (map eid (contents (fill_index H HD df th (w_store w)))) = true.
+Proof. exact (fun H HD df th tok s0 evs H64 Hdf Hdf64 => model_meets_spec_restart H HD H64 df th Hdf Hdf64 tok s0 evs). Qed.
+Print Assumptions c08_dm_meets_spec.
+
+(* the condition is NECESSARY: from any state in which live == restart holds (invariant J), an update violating it
+   makes the live index and the index FillDiff would build hold different elements *)
+Theorem c08_dm_condition_necessary : forall H HD df th w u,
+  (forall a b, HD a = HD b -> a = b) ->
+  J H HD df th w -> update_ok (w_i w) u = false ->
+  let w' := wstep H HD df th w (EvUpd u) in
+  ~ (forall x, In x (contents (w_ix w')) <-> In x (contents (fill_index H HD df th (w_store w')))).
+Proof. exact update_ok_necessary. Qed.
+Print Assumptions c08_dm_condition_necessary.
+
+(* ---- non-vacuity: a history with the ACL entry in the initial storage, creation of a tree and of a derived tree
+   (root-only entries, skipped on both sides), heads moving, an ACL record, a key-value hash, a deletion (queued,
+   then deleted), a late update of the deleted tree, a restart, and more updates after it ---- *)
+Definition Hid (id : N) : N := id * 1000003 mod 18446744073709551616.
+Definition HDsum (l : list N) : N := fold_left (fun a x => a * 131 + x + 1) l 7.
+Definition dm_s0 : store :=
+  [mkEntry 1 [1] false false None;            (* ACL: root-only, no CommonSnapshot: part of the index *)
+   mkEntry 2 [2] true false None].            (* settings tree: root-only with CommonSnapshot: skipped *)
+Definition dm_hist : list event :=
+  [EvUpd (mkEntry 3 [3] true false None);     (* tree created *)
+   EvUpd (mkEntry 3 [30] true false None);    (* head moves *)
+   EvUpd (mkEntry 4 [4] true true None);      (* derived tree created *)
+   EvUpd (mkEntry 1 [10] false false None);   (* ACL record added *)
+   EvUpd (mkEntry 5 [50] false false None);   (* key-value storage hash *)
+   EvUpd (mkEntry 3 [31; 32] true false None);
+   EvDs 3; EvUpd (mkEntry 3 [31; 32] true false (Some 1));   (* queued for deletion *)
+   EvUpd (mkEntry 3 [33] true false (Some 1));               (* late change of a queued tree *)
+   EvRestart [];
+   EvUpd (mkEntry 3 [33] true false (Some 2));               (* deleted *)
+   EvUpd (mkEntry 4 [40] true true None);
+   EvDs 6; EvUpd (mkEntry 6 [] false false (Some 1))].       (* tombstone of an unknown id *)
+
+Example c08_dm_nonvacuous :
+  store_okb dm_s0 = true /\ hist_wf (istart dm_s0) dm_hist = true /\
+  let w := wrun Hid HDsum 2 1 (wstart Hid HDsum 2 1 dm_s0) dm_hist in
+  map eid (contents (w_ix w)) = [1; 4; 5] /\ w_ix w = fill_index Hid HDsum 2 1 (w_store w)
+  /\ w_ds w = [6; 3].
+Proof. vm_compute. repeat split; reflexivity. Qed.
+
+(* ---- the documented asymmetry: a non-derived root-only entry without CommonSnapshot that arrives LIVE is not
+   added by UpdateHeads, but FillDiff adds it at the next start: the condition fails and the hashes differ ---- *)
+Example c08_dm_asymmetry_refuted :
+  let evs := [EvUpd (mkEntry 7 [7] false false None)] in
+  let w := wrun Hid HDsum 32 256 (wstart Hid HDsum 32 256 dm_s0) evs in
+  hist_ok (istart dm_s0) evs = false
+  /\ map eid (contents (w_ix w)) = [1]
+  /\ map eid (contents (fill_index Hid HDsum 32 256 (w_store w))) = [1; 7]
+  /\ top_hash (w_ix w) <> top_hash (fill_index Hid HDsum 32 256 (w_store w))
+  /\ w_hash w <> top_hash (fill_index Hid HDsum 32 256 (w_store w)).
+Proof.
+  cbv zeta. split; [vm_compute; reflexivity|split; [vm_compute; reflexivity|split; [vm_compute; reflexivity|]]].
+  split; intro Hc; vm_compute in Hc; discriminate Hc.
+Qed.
+
+(* ---- the second asymmetry of the storage layer: FillDiff selects documents WITHOUT a "d" key, UpdateHeads tests
+   the status value: an entry whose "d" key is written with status 0 is live but invisible to FillDiff ---- *)
+Example c08_dm_zero_status_refuted :
+  let evs := [EvUpd (mkEntry 8 [80] true false (Some 0))] in
+  let w := wrun Hid HDsum 32 256 (wstart Hid HDsum 32 256 dm_s0) evs in
+  hist_ok (istart dm_s0) evs = false
+  /\ map eid (contents (w_ix w)) = [1; 8]
+  /\ map eid (contents (fill_index Hid HDsum 32 256 (w_store w))) = [1]
+  /\ top_hash (w_ix w) <> top_hash (fill_index Hid HDsum 32 256 (w_store w)).
+Proof.
+  cbv zeta. split; [vm_compute; reflexivity|split; [vm_compute; reflexivity|split; [vm_compute; reflexivity|]]].
+  intro Hc; vm_compute in Hc; discriminate Hc.
+Qed.
